@@ -31,6 +31,15 @@ FINDINGS = {
 }
 
 
+def annotate(op, reply):
+    """which waiting batch gets capMu when it is released is the Go runtime's choice: copy the observed order into the op"""
+    if op.startswith("step ") and len(op.split()) == 2:
+        order = [x[len("unblocked="):].split("@")[0] for x in reply.split() if x.startswith("unblocked=")]
+        if order:
+            return op + " u=" + ",".join(order)
+    return op
+
+
 def spec_trace(rep):
     """C12s: the log is the implementation's behaviour"""
     cap, held = None, None
@@ -82,7 +91,7 @@ def run(ctx):
     corrs = []
     if K.build_hx(ctx) and K.build_drv(ctx):
         args = ["%s=%s" % (k, facts.get(k, "unknown")) for k in ("countAfterLock", "createPreFalse", "expiredHoldsCapMu", "expiredCountsAll")]
-        c = K.correspondence(ctx, "C12", args)
+        c = P.correspondence_observed(ctx, "C12", args, annotate)
         corrs.append(("C12", args, c))
         # genuinely concurrent cap-bearing RPCs (PatchTreasures, PatchExpired, Deletes in flight, ShiftMatching);
         # the hook log (batch lines written while capMu is held) must be a trace of the model
